@@ -255,6 +255,18 @@ theorem emu_refines_term_ris {t : Term.T} {e : Emu} {rows cols : Nat} (s2 : Sim2
     ∃ r, emuStep e (.esc [99]) = .ok r ∧ Refines2 (Term.step t .ris) r.1 rows cols :=
   ⟨rfl, ris_step s2⟩
 
+/-- **Colon sub-parameters of the non-SGR functions** (round 3): the 18 one-parameter and the 3 two-parameter functions of the
+    vocabulary read the main value of each parameter only, so `CSI 2:5 A` does exactly what `CSI 2 A` does — and with
+    `emu_refines_term_long` / `_two` refines the reference's function of those main values. Whether a terminal should
+    execute such a sequence at all is terminal specific (xterm ignores it, DEC STD 070 reserves `:`): `tokOfX` leaves it
+    outside the judged vocabulary; this is the emulator-side statement. -/
+theorem emu_subparams_ignored (e : Emu) (f : Nat) (pm : List Param) (hf : f ∈ onePs ∨ f ∈ twoPs) :
+    emuStep e (.csi [f] (dropSubs pm)) = emuStep e (.csi [f] pm) := by
+  unfold emuStep emuStepF
+  simp only [csi_ignores_subparams e f pm hf]
+
+example : dropSubs [(2, [5]), (7, [])] = [(2, []), (7, [])] := by decide
+
 /-- `tokOfX` agrees with these statements: its tokens for the two cursor functions. -/
 example : tokOfX (.csi [63, 108] [(25, [])]) = some (.showCursor false) ∧
     tokOfX (.csi [32, 113] [(4, [])]) = some (.cursorShape 4) := by decide
